@@ -36,6 +36,9 @@ class Polynomial(Vector):
         if (len(args) == 1 and len(keywords) == 0 and
             isinstance(args[0], Vector)):
 
+                # Only floating-point coefficients are allowed
+                args = (args[0].as_float(),)
+
                 # The new object needs dictionaries of its own; otherwise a
                 # derivative inserted into either object later on appears in the
                 # derivs of the other without its "d_d" attribute
